@@ -4,5 +4,5 @@ CONSTANTS
   MaxRules = 2
   Defects = {}
 SPECIFICATION Spec
-INVARIANTS FirstWins NoneOnlyIfNone EarlierDoNotHold
+INVARIANTS FirstWins NoneOnlyIfNone EarlierDoNotHold KvIsFirstIndexed HandlerIsMatchRoute
 CHECK_DEADLOCK FALSE
